@@ -11,9 +11,15 @@ MSG = {
     3: "MSG3 KNOWNISSUE unreachable statement",
     4: "MSG4 incompatible types: Map<String,? extends List<Foo>> cannot be converted to 'Bar': expected (x) => y",
     5: "MSG5 incompatible types: java.lang.Object cannot be converted to Thread",
+    6: "MSG6 OTHERISSUE variable might not have been initialized",
 }
 DETAIL = {2: "  symbol:   variable bar\n  location: class Main\n"}
-# the user-supplied filter: one pattern per compiler that matches a whole diagnostic carrying the known-issue marker
+# the user-supplied filters: per compiler, patterns that match a whole diagnostic carrying a known-issue marker
+# (two patterns, applied in this order: KNOWNISSUE first, OTHERISSUE second)
+def filters(lang):
+    return [FILTER[lang], FILTER[lang].replace("KNOWNISSUE", "OTHERISSUE")]
+
+
 FILTER = {
     "java": r"[^\n]*KNOWNISSUE[^\n]*\n(?:[ \t][^\n]*\n)*",
     "kotlin": r"[^\n]*KNOWNISSUE[^\n]*\n(?:[ \t][^\n]*\n)*",
